@@ -320,11 +320,14 @@ impl MqttState {
             }
 
             let pkid = publish.pkid;
+            // a packet id is in use until the flow that carries it is complete: for QoS 2 that is
+            // the PUBCOMP, so an id with a pending release is as occupied as one with a publish
             if self
                 .outgoing_pub
                 .get(publish.pkid as usize)
                 .ok_or(StateError::Unsolicited(publish.pkid))?
                 .is_some()
+                || self.outgoing_rel.contains(pkid as usize)
             {
                 info!("Collision on packet id = {:?}", publish.pkid);
                 self.collision = Some(publish);
